@@ -289,7 +289,10 @@ def run_case(c):
                     pmat = np.linalg.inv(np.array(S, float)) @ pmu
                     pr = get_primitive(sc, pmat, symprec=sp)
                 else:
-                    ph_ = Phonopy(unit, supercell_matrix=S, primitive_matrix=c["pm"] if c["pm"] != "P" else None, symprec=sp, log_level=0)
+                    # (is_symmetry=False: this kind is about TILING within the tolerance; whether spglib's operations found at a loose tolerance can be
+                    # turned into atom permutations by phonopy's own matcher at the same tolerance is another question - thorough tier, seed 0:
+                    # symprec 0.05 with 0.015 A of noise was refused there, in Symmetry, not in the cell builders)
+                    ph_ = Phonopy(unit, supercell_matrix=S, primitive_matrix=c["pm"] if c["pm"] != "P" else None, symprec=sp, log_level=0, is_symmetry=False)
                     sc, pr = ph_.supercell, ph_.primitive
                     pmat = np.linalg.inv(np.array(S, float)) @ pmu
             except Exception as e:
